@@ -707,6 +707,43 @@ def rule_TB19(rep, prog, srcdir):
                 sample={"heaps": k["DISPATCH_TIMER_COUNT"], "kernel_timers": g["len"]})
 
 
+def rule_MP20(rep, prog):
+    rid = rep.rule("C11-MP20", "ds_pending_data is shared between the manager (which records fires and markers) and the target-queue thread (which latches it with an exchange): "
+                   "no function updates it with a plain store of a value computed from its own earlier load of the word - a latch that lands between the load and the "
+                   "store is undone and the fire count is reported twice; updates that keep what is there use an atomic read-modify-write", floor=3)
+    n = 0
+    def roots(fn, op, depth=0, seen=None):
+        seen = seen if seen is not None else set()
+        out = set()
+        if op[0] != "i" or depth > 8 or op[1] in seen:
+            return out
+        seen.add(op[1])
+        i = fn.insts[op[1]]
+        if i.op in ("load", "atomicrmw", "cmpxchg"):
+            out.add(i)
+            return out
+        if i.op in ("call", "alloca"):
+            return out
+        ops = [v for v, frm in i.ops] if i.op == "phi" else i.ops
+        for o in ops:
+            if isinstance(o, (list, tuple)) and o and isinstance(o[0], str):
+                out |= roots(fn, o, depth + 1, seen)
+        return out
+    for fn in sorted(prog.all_functions(), key=lambda f: f.name):
+        for st in fn.all_insts():
+            if st.op != "store" or "ds_pending_data" not in prog.fields(st):
+                continue
+            n += 1
+            rep.saw(fn)
+            stale = [l for l in roots(fn, st.ops[0]) if l.op == "load" and "ds_pending_data" in prog.fields(l)]
+            rep.require(rid, not stale, st.loc, fn.name, "pending-data-load-then-store:%s" % fn.name,
+                        "%s writes ds_pending_data with a value derived from its own earlier load of the word (at %s): the handler side's exchange can land in between, "
+                        "and the store then puts the already latched count back - the timer's fires are reported twice" % (fn.name, stale[0].loc if stale else ""),
+                        sample={"store": st.loc})
+    if n < 3:
+        rep.unknown(rid, "fewer than 3 plain stores to ds_pending_data found (%d)" % n)
+
+
 def rule_TB10(rep, prog):
     rid = rep.rule("C11-TB10", "the kernel timer's bookkeeping mirrors the epoll operation just performed: after epoll_ctl(op) on a timerfd both det_registered and "
                    "det_armed are set, unconditionally, to (op != EPOLL_CTL_DEL); the next arm then chooses ADD / MOD correctly", floor=2)
@@ -800,6 +837,14 @@ def run(rep, tier="quick", srcdir=None, only=None):
         rule_MP18(rep, prog)
     if want("C11-TB19"):
         rule_TB19(rep, prog, srcdir)
+    if want("C11-MP20"):
+        rule_MP20(rep, prog)
+    if want("C12-P6"):
+        # dispatch_after takes its `deadline already passed, submit now` shortcut from _dispatch_timeout: the remaining time must be computed on the clock of
+        # the deadline, or a monotonic-clock deadline is compared with the wall clock and the block runs at once (shared with C12)
+        from . import C12
+        from dqsa import build as _b, ir as _ir
+        C12.run_timeout(rep, _ir.Program(_b.facts_for(C12.UNITS, mode="all", srcdir=srcdir)))
 
 
 MANIFEST = {
